@@ -692,10 +692,29 @@ def e_lacking():
                             Variant(I('Y'), 'tuple', [Field(0, 'T', [])])])
 
 
+def e_traitsets():
+    """Every subset of the eleven traits on three fixed shapes (a field-less enum, a generic struct, a generic enum with
+    data): which combinations are accepted and what each impl looks like next to the others -- the `Clone`/`Copy`
+    shortcuts of `PartialOrd`, `Clone` next to `Copy`, `PartialOrd` next to `Ord`, `ZeroizeOnDrop` next to anything
+    (round 9: `Clone` + `PartialOrd` + `ZeroizeOnDrop` on a field-less enum is KF-dropcast)."""
+    T2 = [Param('ty', 'T', comma=True), Param('ty', 'U', comma=False)]
+    PHU = '::core::marker::PhantomData<U>'
+    alltr = ['Clone', 'Copy', 'Debug', 'Default', 'Eq', 'Hash', 'Ord', 'PartialEq', 'PartialOrd', 'Zeroize', 'ZeroizeOnDrop']
+    for n in range(1, 2 ** len(alltr)):
+        traits = [t for i, t in enumerate(alltr) if n >> i & 1]
+        dflt = [opt('default')] if 'Default' in traits else []
+        yield Item('enum', I('A'), [], [], False, [dw(traits, [Gen('custom', 'u8: Copy')])],
+                   [Variant(I('X'), 'unit', [], dflt), Variant(I('Y'), 'unit', []), Variant(I('Z'), 'unit', [])])
+        yield Item('struct', I('A'), T2, [], False, [dw(traits, gen_T())],
+                   [Variant(I('A'), 'tuple', [Field(0, 'T', []), Field(1, PHU, [])])])
+        yield Item('enum', I('A'), T2, [], False, [dw(traits, gen_T())],
+                   [Variant(I('X'), 'tuple', [Field(0, 'T', []), Field(1, PHU, [])], dflt), Variant(I('Y'), 'unit', [])])
+
+
 ENUMERATORS = {
     'skip': e_skip, 'incomparable': e_incomparable, 'discriminants': e_discriminants, 'default': e_default,
     'bounds': e_bounds, 'zeroize': e_zeroize, 'debug': e_debug, 'invalid': e_invalid, 'names': e_names,
-    'fieldopts': e_fieldopts, 'foreign': e_foreign, 'lacking': e_lacking,
+    'fieldopts': e_fieldopts, 'foreign': e_foreign, 'lacking': e_lacking, 'traitsets': e_traitsets,
 }
 
 
